@@ -118,6 +118,8 @@ pub enum Ty {
   L(u32, u32),
   /// a type that needs dropping (16 bytes, align 8)
   Dc,
+  /// a zero-sized type that needs dropping (its drops are counted through a thread-local pointer to the runner's counter)
+  DcZ,
 }
 
 impl Ty {
@@ -125,12 +127,14 @@ impl Ty {
     match self {
       Ty::L(a, _) => a,
       Ty::Dc => 8,
+      Ty::DcZ => 1,
     }
   }
   pub fn size(self) -> u32 {
     match self {
       Ty::L(_, s) => s,
       Ty::Dc => 16,
+      Ty::DcZ => 0,
     }
   }
 }
@@ -198,6 +202,7 @@ impl Op {
       match t {
         Ty::L(a, s) => format!("a{a}s{s}"),
         Ty::Dc => "Dc".into(),
+        Ty::DcZ => "DcZ".into(),
       }
     }
     match self {
@@ -221,6 +226,23 @@ impl Op {
 
 pub fn word_str(w: &[Op]) -> String {
   w.iter().map(|o| o.short()).collect::<Vec<_>>().join(" ")
+}
+
+thread_local! {
+  /// the drop counter of the runner whose step is executing (zero-sized values cannot carry a pointer to it)
+  static CUR_DC: std::cell::RefCell<Option<Rc<Cell<u32>>>> = const { std::cell::RefCell::new(None) };
+}
+
+/// A zero-sized value that needs dropping; counts its drops in the counter of the runner that is executing.
+pub struct DcZ;
+impl Drop for DcZ {
+  fn drop(&mut self) {
+    CUR_DC.with(|c| {
+      if let Some(ctr) = c.borrow().as_ref() {
+        ctr.set(ctr.get() + 1);
+      }
+    });
+  }
 }
 
 /// A value that needs dropping; counts its drops.
@@ -311,6 +333,9 @@ pub struct Live {
   pub owned: bool,
   /// refs() delta observed when the handle was created (owned handles embed a clone)
   pub refs_delta: usize,
+  /// drops of the value counted while the allocation step (the `write` of the value) ran: a zero-sized value is not
+  /// stored anywhere, it is dropped by `write` itself
+  pub dropped_at_write: u32,
 }
 
 #[derive(Clone, PartialEq, Eq, Hash, Debug, Serialize)]
@@ -688,6 +713,7 @@ impl<A: Subject> Runner<A> {
 
   /// Execute one operation; `None` when the operation is disabled in this state.
   pub fn step(&mut self, op: Op, or: u32, v: &mut Vec<Viol>) -> Option<Obs> {
+    CUR_DC.with(|c| *c.borrow_mut() = Some(self.dc.clone()));
     if or & O_TERM != 0 {
       TERM_LEFT.with(|c| c.set(TERM_BUDGET));
       rarena_allocator::verif::install(Some(&TERM_HOOK));
@@ -889,7 +915,8 @@ impl<A: Subject> Runner<A> {
             v.push(Viol { flag: O_REWIND, class: "rewind-side-effect".into(), msg: "rewind changed something other than the cursor".into() });
           }
         }
-        self.post(or, v, &pre, Some(&post), false);
+        // (discarded() goes down through clear() only: a seek of the cursor is no exception)
+        self.post(or, v, &pre, Some(&post), true);
         Some(self.obs(Res::Unit))
       }
       Op::Clear => {
@@ -1048,6 +1075,7 @@ impl<A: Subject> Runner<A> {
       _ => unreachable!(),
     };
     let mut needs_drop = false;
+    let dc_at_entry = self.dc.get();
     let r: Result<Box<dyn Handle>, Error> = match op {
       Op::B(_) => a.alloc_bytes(n).map(|h| Box::new(h) as Box<dyn Handle>),
       Op::BO(_) => a.alloc_bytes_owned(n).map(|h| Box::new(h) as Box<dyn Handle>),
@@ -1071,6 +1099,22 @@ impl<A: Subject> Runner<A> {
           Box::new(h) as Box<dyn Handle>
         })
       }
+      Op::T(Ty::DcZ) => {
+        needs_drop = true;
+        unsafe { a.alloc::<DcZ>() }.map(|mut h| {
+          h.write(DcZ);
+          Box::new(h) as Box<dyn Handle>
+        })
+      }
+      Op::TO(Ty::DcZ) => {
+        needs_drop = true;
+        unsafe { a.alloc_owned::<DcZ>() }.map(|mut h| {
+          h.write(DcZ);
+          Box::new(h) as Box<dyn Handle>
+        })
+      }
+      Op::AB(Ty::DcZ, _) => a.alloc_aligned_bytes::<DcZ>(n).map(|h| Box::new(h) as Box<dyn Handle>),
+      Op::ABO(Ty::DcZ, _) => a.alloc_aligned_bytes_owned::<DcZ>(n).map(|h| Box::new(h) as Box<dyn Handle>),
       _ => unreachable!(),
     };
     let post = a.snap(64);
@@ -1142,6 +1186,12 @@ impl<A: Subject> Runner<A> {
                 v.push(Viol { flag: O_SHADOW, class: "overlap".into(), msg: format!("{} -> [{},{}) overlaps live [{},{})", op.short(), off, off + hcap, l.m.0, l.m.0 + l.m.1) });
               }
             }
+          }
+        }
+        if or & O_RELEASE != 0 && !zero_req && !self.tainted && post.allocated > pre.allocated && post.nodes == pre.nodes {
+          // served by moving the cursor: the buffer extent (what a drop gives back) is exactly what the cursor moved over
+          if m.2 != pre.allocated as usize || m.2 + m.3 != post.allocated as usize {
+            v.push(Viol { flag: O_RELEASE, class: "buffer-extent-not-what-was-consumed".into(), msg: format!("{} moved the cursor {} -> {}, the handle's buffer extent is [{},{})", op.short(), pre.allocated, post.allocated, m.2, m.2 + m.3) });
           }
         }
         if !self.tainted && hcap > 0 {
@@ -1243,7 +1293,8 @@ impl<A: Subject> Runner<A> {
             }
           }
         }
-        self.slots.push(Live { h: Some(h), m, pat, needs_drop, owned, refs_delta });
+        let dropped_at_write = self.dc.get().wrapping_sub(dc_at_entry);
+        self.slots.push(Live { h: Some(h), m, pat, needs_drop, owned, refs_delta, dropped_at_write });
       }
       Err(e) => {
         let k = err_kind(&e);
@@ -1370,8 +1421,9 @@ impl<A: Subject> Runner<A> {
     let post = a.snap(64);
     let released = !matches!(op, Op::X(_)) && bcap > 0;
     if or & O_RELEASE != 0 {
-      let dcd = self.dc.get() - dc_before;
-      let want = if l.needs_drop && !detached { 1 } else { 0 };
+      // exactly once over the life of the value: at the release of its handle, or (zero-sized values) already by `write`
+      let dcd = self.dc.get() - dc_before + l.dropped_at_write;
+      let want = if l.needs_drop && (!detached || l.dropped_at_write > 0) { 1 } else { 0 };
       if dcd != want {
         v.push(Viol { flag: O_RELEASE, class: "value-drop-count".into(), msg: format!("{}: value dropped {} time(s), expected {}", op.short(), dcd, want) });
       }
